@@ -1379,6 +1379,14 @@ static QVec kronV(const QVec& q, int n, ll factor)
 static ll ipow(ll n, int p) { ll r = 1; for (int i = 0; i < p; i++) r *= n; return r; }
 
 static int g_infl = 0;
+// operations whose cost grows with the size (the ones Eigen / OpenMP may run in parallel): only those are inflated
+static bool heavyOp(const std::string& op)
+{
+  static const std::set<std::string> H = {"ProdMatMat", "ProdNormMatMat", "ProdNormMatVec", "ProdNormMat", "MatVec", "VecMat",
+                                           "AddMat", "LinComb", "TransposeInPlace", "Invert", "Solve", "MultiplyRow",
+                                           "MultiplyColumn", "ProdScalar", "AddScalar"};
+  return H.count(op) > 0;
+}
 
 static void inflate(int nodeIdx, const Node& n, const Node& pn, int p, const std::vector<char>& okRoutes)
 {
@@ -1456,7 +1464,7 @@ static void dfs(int nodeIdx, int p, const Regs& regs, bool inflonly)
     std::vector<char> okRoutes;
     Regs* g = step(ci, c, n, p, regs, &okRoutes);
     stat("steps");
-    if (g_infl > 0 && c.h.size() == 1 && (c.kj >= 0 || c.ki >= 0)) inflate(ci, c, n, p, okRoutes);
+    if (g_infl > 0 && c.h.size() == 1 && (c.kj >= 0 || c.ki >= 0) && heavyOp(c.h.back().op)) inflate(ci, c, n, p, okRoutes);
     if (g == nullptr) continue;
     // a state whose reading routes disagree is not used further (one root cause, one report)
     bool consistent = inflonly || checkReaders(*g, c, &n, p, ci);
